@@ -52,6 +52,9 @@ M = {
     "noop": {"op": "noop"},
     "store3del": {"op": "store", "set": "3", "mode": "+", "flags": "\\Deleted"},
     "selother": {"op": "select", "m": "other"},
+    "store12": {"op": "store", "set": "1:2", "mode": "+", "flags": "\\Flagged"},
+    "selinbox": {"op": "select", "m": "INBOX"},
+    "exinbox": {"op": "examine", "m": "INBOX"},
     "delother": {"op": "delete", "m": "other"},
     "renother": {"op": "rename", "m": "other", "to": "renamed"},
 }
@@ -85,6 +88,11 @@ def scenarios(tier):
         scn("copy|rename-dst", SEL_AB, A=["copy12"], B=["renother"]),
         scn("select|select-inactive", [], A=["selother"], B=["selother"]),
         scn("copy|expunge", SEL_AB + DEL1, A=["expunge"], B=["copy12"]),
+        # selecting the mailbox one has selected already, while another session changes it
+        scn("reselect,noop|expunge", SEL_AB + DEL1, A=["expunge"], B=["selinbox", "noop"]),
+        scn("re-examine,noop|move", SEL_AB, A=["move1"], B=["exinbox", "noop"]),
+        # admission next to *two* running commands: a parked unrelated FETCH first, then COPY, then an overlapping STORE
+        dict(scn("3:fetch3 parked|copy12|store12", SEL_AB + [{"s": "C", "op": "select", "m": "INBOX"}], C=["fetch3"], A=["copy12"], B=["store12"]), parked=["C"]),
         # the same races with a peer that reads slowly (the reader's writer.drain() may park after any response)
         dict(scn("move1|fetchall slow reader", SEL_AB, A=["move1"], B=["fetchall"]), slow=["B"]),
         dict(scn("expunge|fetchall slow reader", SEL_AB + DEL1, A=["expunge"], B=["fetchall"]), slow=["B"]),
@@ -107,8 +115,11 @@ def run(tier, seed, jobs) -> Result:
     per = []
     caps = []
     distinct = 0
+    heavy = ("move1|fetch3", "move1|move3", "move|moveback", "copy|rename-dst", "copy|expunge", "re-examine,noop|move")
     for sc in scenarios(tier):
         b = bound
+        if tier == "quick" and sc["name"] in heavy:
+            b = 1  # >100 choice points each: two deviations are explored in the thorough tier (and copy|delete-dst, copy|copyback stay at 2 here)
         if tier != "quick":
             sc = dict(sc, loopopts={"preempt_timers": True})
             if sc["name"] in ("expunge|fetch3", "expunge|store3", "expunge|search", "expunge|uidfetch", "close|fetch2", "store|fetchbody",
